@@ -25,10 +25,12 @@ pub struct PoolCtx {
     pub infos: Vec<PoolInfo>,
     pub shipped_table: Vec<Entry>,
     pub fixed_probes: Vec<i128>,
+    /// Known findings that are reported as such rather than as violations (O6 only).
+    pub known: oracle::Known,
 }
 
 impl PoolCtx {
-    pub fn new(images: Vec<Image>) -> PoolCtx {
+    pub fn new(images: Vec<Image>, known: oracle::Known) -> PoolCtx {
         let index = images.iter().map(|i| ImageIndex::new(i.bytes())).collect();
         let infos = images.iter().map(PoolInfo::of).collect();
         let shipped_table = images[0].table.clone();
@@ -38,6 +40,7 @@ impl PoolCtx {
             infos,
             shipped_table,
             fixed_probes: oracle::fixed_probe_seconds(),
+            known,
         }
     }
 }
@@ -109,6 +112,12 @@ counters!(
     o3_evaluations,
     o4_model_probes,
     o4_differential_probes,
+    o6_utc_probes,
+    o6_tai_probes,
+    o6_full_sweeps,
+    kf1_hits,
+    kf2_roundtrip_hits,
+    kf2_backstep_hits,
     real_disk_installs,
     max_reads_in_one_load,
     budget_of_that_load,
@@ -1044,6 +1053,47 @@ impl Sim {
                         }
                     } else if self.trace {
                         trace.push(format!("op{oi} Query client {c}: no provider held"));
+                    }
+                    // O6: conversions follow the shipped table, whatever has been loaded so far.
+                    if violation.is_none() {
+                        let mut st = oracle::ConvStats::default();
+                        let do_full = *full
+                            && clients[c]
+                                .as_ref()
+                                .map(|h| ctx.images[h.image].table == ctx.shipped_table)
+                                .unwrap_or(false);
+                        let r = catch_unwind(AssertUnwindSafe(|| {
+                            if do_full {
+                                oracle::conv_full_sweep(&ctx.shipped_table, &ctx.fixed_probes, ctx.known, &mut st)
+                            } else {
+                                oracle::conv_light(&ctx.shipped_table, *probe_seed, ctx.known, &mut st)
+                            }
+                        }));
+                        let mut w = self.world.borrow_mut();
+                        w.ctr.add(C::o6_utc_probes, st.utc_probes);
+                        w.ctr.add(C::o6_tai_probes, st.tai_probes);
+                        w.ctr.add(C::o6_full_sweeps, do_full as u64);
+                        w.ctr.add(C::kf1_hits, st.hits.kf1);
+                        w.ctr.add(C::kf2_roundtrip_hits, st.hits.kf2_roundtrip);
+                        w.ctr.add(C::kf2_backstep_hits, st.hits.kf2_backstep);
+                        w.log.u64(st.utc_probes);
+                        match r {
+                            Ok(Ok(())) => {}
+                            Ok(Err(m)) => {
+                                violation = Some(Violation {
+                                    oracle: "O6".into(),
+                                    op_index: oi,
+                                    message: m,
+                                });
+                            }
+                            Err(_) => {
+                                violation = Some(Violation {
+                                    oracle: "O6".into(),
+                                    op_index: oi,
+                                    message: format!("UTC<->TAI conversion panicked: {}", take_last_panic()),
+                                });
+                            }
+                        }
                     }
                 }
             }
